@@ -16,6 +16,13 @@ records what the real `Validate()` and `NewVerifierWithOptions` say (`validated`
 `WF` document every selection clause holds, a non-`WF` document is refused and nothing is ever
 selected from it (clause `only_unique_documents_validate`; the selection clauses then read
 "there is no selection result").
+
+Histories. The model has no state besides the document's content: `Input.history` / `Input.before`
+(how the document object the harness queries came to hold `stmts`: validated with another
+content, queried, struct-copied, edited in place, re-validated or not) are ignored by `run`
+(`selection_depends_only_on_current_content`). An implementation that keeps derived state on
+the document or the verifier (an index built by `Validate`, a memoised selection) and lets it go
+stale disagrees with the model on such a history.
 -/
 import NotationModel.Lemmas.C08
 set_option linter.unusedSimpArgs false
@@ -528,6 +535,37 @@ theorem model_holds (i : Input) : Holds i (run i) = true := by
       · simp only [Option.map_some, Option.getD_some]
         exact (pureQ_selected _ _ _ _ _).2.2.2.2.2.2
 
+/-! ### selection is a function of the document's current content -/
+
+theorem runQueries_congr (F : CloneFacts) (i j : Input) (hk : i.kind = j.kind) (hs : i.stmts = j.stmts) :
+    ∀ (ts : List Text) (st : State), runQueries F i ts st = runQueries F j ts st := by
+  intro ts
+  induction ts with
+  | nil => intro st; rfl
+  | cons t r ih =>
+    intro st
+    simp only [runQueries, hk, hs, ih]
+
+/-- **selection_depends_only_on_current_content.** Whatever the history of the document object
+(what it contained when it was validated, which queries it answered before, whether it was
+edited in place or copied, re-validated or not): the model's whole observation - validation
+verdict, every selection, every verifier outcome - is determined by the kind, the CURRENT
+statements and the queries. There is no state besides the document's content. -/
+theorem selection_depends_only_on_current_content (i j : Input)
+    (hk : i.kind = j.kind) (hs : i.stmts = j.stmts) (hq : i.queries = j.queries) : run i = run j := by
+  have hWF : WF i = WF j := by simp only [WF, hk, hs]
+  unfold run runWith
+  rw [hWF]
+  cases WF j with
+  | false => rfl
+  | true =>
+    simp only [↓reduceIte, runValid, runQueries_congr currentFacts i j hk hs, hq, hk, hs]
+
+/-- in particular: an edited document behaves exactly like a freshly built one with the same content -/
+theorem edited_equals_fresh (i : Input) :
+    run i = run { i with history := "unvalidated", before := none } :=
+  selection_depends_only_on_current_content i _ rfl rfl rfl
+
 /-! ### non-vacuity -/
 
 section examples
@@ -539,7 +577,7 @@ def exStmt (n : String) (scopes : List String) : Stmt :=
 def exDoc : List Stmt := [exStmt "w" ["*"], exStmt "a" ["r.io/app", "r.io/app2"], exStmt "b" ["r.io/app/sub"]]
 
 def exInput : Input :=
-  { kind := .oci, stmts := exDoc,
+  { kind := .oci, stmts := exDoc, history := "validated", before := none,
     queries := ["r.io/app@d".toList, "r.io/app/sub@d".toList, "r.io/ap@d".toList, "r.io/app:v1@d".toList, "r.io/app".toList] }
 
 example : WF exInput = true := by decide
@@ -565,6 +603,7 @@ and an implementation that validates it and then selects in an order-dependent w
 (by the validation clause and by every selection clause) -/
 def exTwoWild : Input :=
   { kind := .oci, stmts := [exStmt "w1" ["*"], exStmt "a" ["r.io/app"], exStmt "w2" ["*"]],
+    history := "validated", before := none,
     queries := ["r.io/other@d".toList] }
 
 example : WF exTwoWild = false := by decide
@@ -584,6 +623,11 @@ example : WF { exInput with stmts := [exStmt "a" ["r.io/app"], exStmt "a" ["r.io
 example : WF { exInput with stmts := [exStmt "a" ["*", "r.io/app"]] } = false := by decide
 
 
+/-- the history of the document object is irrelevant: built and validated as a wildcard-only
+document, then edited into `exDoc` - same observation as a fresh `exDoc` -/
+example : run { exInput with history := "validated,warm,edit-inplace", before := some [exStmt "w" ["*"]] } = run exInput := by
+  decide
+
 /-- without the wildcard statement the near miss is refused with the no-applicable-policy class -/
 example : (run { exInput with stmts := exDoc.tail, queries := ["r.io/ap@d".toList] }).queries.map (·.viaVerify) =
     [noPolicy] := by decide
@@ -599,7 +643,7 @@ example : ((runWith { currentFacts with makesMap := false } exInput).queries.map
 
 /-- blob: exact name, near misses, blank name; VerifyBlob without a name applies the global statement -/
 def exBlob : Input :=
-  { kind := .blob,
+  { kind := .blob, history := "validated", before := none,
     stmts := [{ exStmt "blob-policy" [] with isGlobal := true }, exStmt "blob-policy2" []],
     queries := ["blob-policy2".toList, "blob-polic".toList, "Blob-policy".toList, " ".toList, [] ] }
 
